@@ -7,6 +7,7 @@ open IrohModel IrohModel.Pkarr IrohModel.C39
 payload kinds (see harness/hdns/src/bin/c39.rs)
   `crash b=<B> m=<msg>,...`      msg = `u<key>.<ts>.<id>` | `g<key>`
   `evict m=u<key>.<off>.<id>,...` timestamps `cutoff + off`
+  `evstep m=<op>,...`            op = `u<key>.<off>.<id>` | `s` | `c`
   `raw <k0><d0><k8><d8> <hex>`
 A packet `ts.id` is modelled with the two bytes of its DNS message id as payload.
 -/
@@ -83,6 +84,38 @@ def evictCase (msgs : List M) : String :=
   let (ps, ix) := showTables T' cands baseCut
   " ".intercalate (outs.reverse ++ [s!"after={ps}", s!"index={ix}"])
 
+/-- `evstep`: the eviction pass played step by step (`s` snapshot, `c` handle the oldest
+queued CheckExpired) with publishes in between; the clock stays within the margins. -/
+def evstepCase (ops : List String) : Option String := do
+  let now := baseCut + retention
+  let mut st : EState := ⟨Tables.empty, [], now⟩
+  let mut cands : List (Nat × Nat) := []
+  let mut outs : List String := []
+  for op in ops do
+    if op = "s" then
+      let found := sortNatPairs (scan retention st.clock st.tables cands)
+      st := { st with queue := st.queue ++ found }
+      outs := (if found.isEmpty then "snap:-" else
+        "snap:" ++ "/".intercalate (found.map fun (t, k) => s!"{(t : Int) - baseCut}:{k}")) :: outs
+    else if op = "c" then
+      match st.queue with
+      | [] => outs := "chk:-" :: outs
+      | (t, k) :: _ =>
+        match estep retention st .check with
+        | some st' => st := st'; outs := s!"chk:{(t : Int) - baseCut}:{k}" :: outs
+        | none => outs := "chk:?" :: outs
+    else
+      match ← parseMsg op with
+      | .up k off id =>
+        let p : Packet := ⟨k, 0, ((baseCut : Int) + off).toNat, idBytes id⟩
+        let f := (upsert st.tables p).2
+        st := (estep retention st (.publish p)).getD st
+        cands := (p.ts, k) :: cands
+        outs := (if f then "1" else "0") :: outs
+      | .get _ => none
+  let (ps, ix) := showTables st.tables cands baseCut
+  pure (" ".intercalate (outs.reverse ++ [s!"after={ps}", s!"index={ix}"]))
+
 def rawCase (bits : String) (data : List UInt8) : String :=
   match bits.toList with
   | [k0, d0, k8, d8] =>
@@ -108,6 +141,8 @@ def handleLine (payload : String) : String :=
     match ((((m.drop 2).toString).splitOn ",").filter (· ≠ "")).mapM parseMsg with
     | some msgs => evictCase msgs
     | none => "bad-input"
+  | ["evstep", m] =>
+    (evstepCase ((((m.drop 2).toString).splitOn ",").filter (· ≠ ""))).getD "bad-input"
   | ["raw", bits, hx] =>
     match bytesOfHex hx with
     | some data => rawCase bits data
